@@ -13,6 +13,21 @@ import (
 
 var errInjected = errors.New("injected stream failure")
 
+// injectedTimeout: the same failure as a net.Error reporting Timeout() (a read deadline expiring on the stream); it has the
+// text of errInjected, so the oracles compare it as the same failure
+type injectedTimeout struct{}
+
+func (injectedTimeout) Error() string   { return errInjected.Error() }
+func (injectedTimeout) Timeout() bool   { return true }
+func (injectedTimeout) Temporary() bool { return true }
+
+func (k wtTotCase) injErr() error {
+	if k.timeout {
+		return injectedTimeout{}
+	}
+	return errInjected
+}
+
 type wtTotCase struct {
 	stream  []byte
 	limit   int64
@@ -22,6 +37,7 @@ type wtTotCase struct {
 	chunk   int
 	api     string // Read5 | Read1 | Read8K | ReadMessage
 	eofWith bool   // the stream returns its last bytes together with EOF
+	timeout bool   // the injected failure is a net.Error with Timeout() true
 }
 
 func (k wtTotCase) String() string {
@@ -30,7 +46,7 @@ func (k wtTotCase) String() string {
 	if len(s) > 24 {
 		pre = fmt.Sprintf("%x…(%d bytes)", s[:24], len(s))
 	}
-	return fmt.Sprintf("stream=%s limit=%d consume=%s failAt=%d rb=%d chunk=%d api=%s eof-with-data=%v", pre, k.limit, k.consume, k.failAt, k.rb, k.chunk, k.api, k.eofWith)
+	return fmt.Sprintf("stream=%s limit=%d consume=%s failAt=%d rb=%d chunk=%d api=%s eof-with-data=%v timeout-fault=%v", pre, k.limit, k.consume, k.failAt, k.rb, k.chunk, k.api, k.eofWith, k.timeout)
 }
 
 func isUnexpectedEnd(err error) bool {
@@ -71,7 +87,7 @@ func wtTotality(k wtTotCase) (fails []string, outcome string) {
 func wtTotalityReadMessage(k wtTotCase) (fails []string) {
 	ref := wtDecode(k.stream)
 	fs := newFakeStream(k.stream)
-	fs.failAt, fs.failErr, fs.chunk = k.failAt, errInjected, k.chunk
+	fs.failAt, fs.failErr, fs.chunk = k.failAt, k.injErr(), k.chunk
 	fs.eofWithData = k.eofWith
 	sess := newFakeSession()
 	c := wt.NewConn(sess.S, fs, true, k.rb, 0, nil, nil, nil)
@@ -142,7 +158,7 @@ func wtTotalityReadMessage(k wtTotCase) (fails []string) {
 func wtTotalityReader(k wtTotCase) (fails []string, outcome string) {
 	ref := wtDecode(k.stream)
 	fs := newFakeStream(k.stream)
-	fs.failAt, fs.failErr, fs.chunk = k.failAt, errInjected, k.chunk
+	fs.failAt, fs.failErr, fs.chunk = k.failAt, k.injErr(), k.chunk
 	fs.eofWithData = k.eofWith
 	sess := newFakeSession()
 	c := wt.NewConn(sess.S, fs, true, k.rb, 0, nil, nil, nil)
@@ -361,17 +377,19 @@ func registerC15() {
 			if faults {
 				for _, chunk := range []int{0, 1, 3} {
 					for failAt := 0; failAt <= len(stream)+1 && failAt < 80; failAt++ {
-						for _, cons := range []string{"all", "none"} {
-							k := wtTotCase{stream: stream, limit: lims[0], consume: cons, failAt: failAt, api: "Read5", chunk: chunk, rb: 16}
-							n++
-							f, o := wtTotality(k)
-							outcomes["fault "+o]++
-							fails = append(fails, f...)
-						}
-						// the same fault under the real ReadMessage, with and without a read limit
-						for _, lim := range []int64{0, 65536} {
-							n++
-							fails = append(fails, wtTotalityReadMessage(wtTotCase{stream: stream, limit: lim, consume: "all", failAt: failAt, api: "ReadMessage", chunk: chunk, rb: 16})...)
+						for _, to := range []bool{false, true} {
+							for _, cons := range []string{"all", "none"} {
+								k := wtTotCase{stream: stream, limit: lims[0], consume: cons, failAt: failAt, api: "Read5", chunk: chunk, rb: 16, timeout: to}
+								n++
+								f, o := wtTotality(k)
+								outcomes["fault "+o]++
+								fails = append(fails, f...)
+							}
+							// the same fault under the real ReadMessage, with and without a read limit
+							for _, lim := range []int64{0, 65536} {
+								n++
+								fails = append(fails, wtTotalityReadMessage(wtTotCase{stream: stream, limit: lim, consume: "all", failAt: failAt, api: "ReadMessage", chunk: chunk, rb: 16, timeout: to})...)
+							}
 						}
 					}
 				}
